@@ -343,7 +343,7 @@ def run(ctx):
 
     def liveness(c, fixa=False, fixb=False, tag=""):
         return ctx.tlc(S, "MC_BatchLP", "MC_BatchLP_live.cfg", defines=mc_defs(*c, fixa=fixa, fixb=fixb), name="live-" + cfg_name(*c) + tag,
-                       timeout=6000, workers=4, must_pass=False, count=False)
+                       timeout=6000, workers=2 if tag and not thorough else 4, must_pass=False, count=False)
 
     sims = [(2, 2, 2, 2, 1, 1, 1, True), (2, 1, 1, 1, 1, 1, 2, False), (1, 3, 2, 1, 1, 1, 1, True),
             (3, 2, 2, 1, 2, 2, 0, False), (2, 2, 4, 2, 1, 1, 0, True)] if hooks else []
@@ -388,14 +388,15 @@ def run(ctx):
 
     with ThreadPoolExecutor(max_workers=5) as ex:
         f_mc = [(c, ex.submit(mc, c)) for c in ([] if skip_mc else fam)]
-        f_rep = {(n, c): ex.submit(repair_holds, n, c) for n in ([] if skip_mc else REPAIRS) for c in rep_cfgs}
+        # quick tier: the exhaustive "nothing is left" run for A+B only; that A alone / B alone remove exactly their share is shown
+        # there by the small runs below (each leaves the other's deviations) and exhaustively in the thorough tier
+        f_rep = {(n, c): ex.submit(repair_holds, n, c) for n in ([] if skip_mc else REPAIRS) for c in rep_cfgs if thorough or n == "A+B"}
         f_sim = [(c, ex.submit(simulate, c)) for c in sims]
         f_live = [(c, ex.submit(liveness, c)) for c in ([] if skip_mc else live)]
         f_slp = [(c, ex.submit(slp, c)) for c in ([] if skip_mc else slp_fam)]
         f_nk = {d: ex.submit(noknown, d) for d in ([] if skip_mc else KNOWN_MODEL + ["no-clone"])}
-        # (repair B adds no waiting; its liveness run and the larger configuration are left to the thorough tier)
         f_rep_live = {n: ex.submit(liveness, tiny if not thorough else live[0], REPAIRS[n]["fixa"], REPAIRS[n]["fixb"], "-repair-" + n)
-                      for n in ([] if skip_mc else REPAIRS) if thorough or REPAIRS[n]["fixa"]}
+                      for n in ([] if skip_mc else REPAIRS) if thorough or n == "A+B"}
         f_rep_left = {(n, d): ex.submit(noknown, d, REPAIRS[n]["fixa"], REPAIRS[n]["fixb"], "-repair-" + n)
                       for n in ([] if skip_mc else REPAIRS) for d in KNOWN_MODEL if d not in REPAIRS[n]["removed"] and d != "D2-chunk-aborted"}
         f_slp_mut = {mu: ex.submit(slp, slp_fam[0], mu, "Observed", False, "-" + mu) for mu in ([] if skip_mc else slp_mut)}
@@ -443,14 +444,14 @@ def run(ctx):
         matrix = {}
         for n, rp in REPAIRS.items():
             holds = {cfg_name(*c): (f_rep[(n, c)].result()["violated"] or f_rep[(n, c)].result()["error"] or
-                                     ("timeout" if f_rep[(n, c)].result()["timed_out"] else "holds")) for c in rep_cfgs}
+                                     ("timeout" if f_rep[(n, c)].result()["timed_out"] else "holds")) for c in rep_cfgs if (n, c) in f_rep}
             left = {d: f_rep_left[(n, d)].result()["violated"] == "Contract" for d in KNOWN_MODEL if (n, d) in f_rep_left}
             lv = f_rep_live[n].result() if n in f_rep_live else None
-            matrix[n] = {"removes": rp["removed"], "contract_without_them": holds,
+            matrix[n] = {"removes": rp["removed"], "contract_without_them": holds or "thorough tier only",
                          "still_found": sorted(d for d, v in left.items() if v), "not_found_although_not_claimed": sorted(d for d, v in left.items() if not v and d != "D2-chunk-aborted"),
                          "every_call_returns": ("thorough tier only" if lv is None else "yes" if not (lv["violated"] or lv["error"] or lv["timed_out"])
                                                 else (lv["violated"] or lv["error"] or "timeout")),
-                         "states": {cfg_name(*c): f_rep[(n, c)].result()["distinct"] for c in rep_cfgs}}
+                         "states": {cfg_name(*c): f_rep[(n, c)].result()["distinct"] for c in rep_cfgs if (n, c) in f_rep}}
         ctx.extra["sketched_repairs"] = matrix
 
     # ------------------------------------------------------------ spec -> code: behaviours as gate scripts
